@@ -13,7 +13,7 @@
 From Coq Require Import PrimFloat.
 From PV Require Import Lib.Common Lib.FloatK Model.C01_Meiosis Model.C01_Mating Model.C09_Stats Model.C10_Limits.
 From PV Require Import Proofs.C01_Meiosis Proofs.C09_Stats Proofs.C10_Float Proofs.C10_Limits Proofs.C10_History.
-From PV Require Import Gen.C10_Kernel Proofs.C10_Kernel Proofs.C10_Laws.
+From PV Require Import Gen.C10_Kernel Proofs.C10_Kernel Proofs.C10_Laws Proofs.C10_Ploidy.
 Local Open Scope Z_scope.
 
 (** ENVELOPE — for every population, every additive model and every trait: lsl <= gebv(individual) <= usl for every member *)
@@ -241,6 +241,56 @@ Print Assumptions C10_population_laws.
 
 Example C10_laws_hyps_satisfiable : (0 < 4)%Q /\ wf 2 3 ex_geno /\ model_ok 3 2 ex_u /\ length [0%float; 1%float; 0.5%float] = 3%nat.
 Proof. split; [reflexivity|]. split; [exact (proj1 ex_wf)|]. split; [exact (proj1 (proj2 ex_wf)) | reflexivity]. Qed.
+
+(** ** ANY PLOIDY / ANY NUMBER OF PHASES (the check observes phased matrices with 1, 2, 3 and 4 phases, unphased matrices and raw dosage
+    arrays of ploidy 1..4, through every input route).  Vocabulary (Proofs/C10_Ploidy.v):
+      [phases_ok n p geno]  any number of phases, each an n x p matrix;   [alleles01 geno]  alleles in {0,1}
+      [dos_ok m n p D]      an n x p dosage matrix with entries in 0..m, n >= 1, m >= 1, m*n <= 2^53
+      [dfixed p D]          every individual has the same dosage at every locus *)
+(** the phased object (ploidy = number of phases), the unphased object and the raw array with that ploidy give the same frequencies and limits *)
+Theorem C10_routes_agree_any_phases : forall t n p u geno, phases_ok n p geno ->
+  freq_dosage (nphase geno) n p geno = freq_phased n p geno /\
+  usl_dosage t n p (nphase geno) u geno = usl t n p u geno /\ lsl_dosage t n p (nphase geno) u geno = lsl t n p u geno.
+Proof. exact routes_any. Qed.
+Print Assumptions C10_routes_agree_any_phases.
+
+(** ENVELOPE for a dosage matrix of any ploidy m: lsl_numpy(afreq, m) <= gebv_numpy(Z)[s] <= usl_numpy(afreq, m) *)
+Theorem C10_brackets_any_ploidy : forall t m n p u D s k, dos_ok m n p D -> model_ok p t u -> (s < n)%nat -> (k < t)%nat ->
+  (nth k (lsl_numpy t m u (afreq_f m p D)) 0 <= nth k (nth s (gebv_numpy t u D) []) 0)%Q /\
+  (nth k (nth s (gebv_numpy t u D) []) 0 <= nth k (usl_numpy t m u (afreq_f m p D)) 0)%Q.
+Proof. exact brackets_m. Qed.
+Print Assumptions C10_brackets_any_ploidy.
+
+(** ... the limits are the best / worst genotype assemblable at ploidy m from the alleles present (count-based) *)
+Theorem C10_limits_are_counts_any_ploidy : forall t m n p u D k, dos_ok m n p D -> model_ok p t u -> (k < t)%nat ->
+  nth k (usl_numpy t m u (afreq_f m p D)) 0%Q = usl_spec_m m n p u D k /\ nth k (lsl_numpy t m u (afreq_f m p D)) 0%Q = lsl_spec_m m n p u D k.
+Proof. exact limits_are_counts_m. Qed.
+Print Assumptions C10_limits_are_counts_any_ploidy.
+
+(** TIGHT at any ploidy: all individuals homozygous (dosage 0 or m) and identical at every locus -> both limits equal the common value *)
+Theorem C10_fixed_tight_any_ploidy : forall t m n p u D s k, dos_ok m n p D -> model_ok p t u -> dfixed p D ->
+  (forall j, (j < p)%nat -> Forall (fun d => d = 0 \/ d = m) (col 0 j D)) -> (s < n)%nat -> (k < t)%nat ->
+  (nth k (lsl_numpy t m u (afreq_f m p D)) 0 == nth k (nth s (gebv_numpy t u D) []) 0)%Q /\
+  (nth k (usl_numpy t m u (afreq_f m p D)) 0 == nth k (nth s (gebv_numpy t u D) []) 0)%Q.
+Proof. exact fixed_tight_m. Qed.
+Print Assumptions C10_fixed_tight_any_ploidy.
+
+(** ENVELOPE for a phased object with any number of phases: its limits (ploidy read from the object) bracket the breeding values
+    computed from the sum over ALL of its phases (what mat_asformat("{0,1,2}") must hand to gebv) *)
+Theorem C10_brackets_any_phases : forall t n p u geno s k, phases_ok n p geno -> alleles01 geno -> (0 < n)%nat -> 0 < nphase geno ->
+  nphase geno * Z.of_nat n <= 2^53 -> model_ok p t u -> (s < n)%nat -> (k < t)%nat ->
+  (nth k (lsl t n p u geno) 0 <= nth k (nth s (gebv_numpy t u (dosage n p geno)) []) 0)%Q /\
+  (nth k (nth s (gebv_numpy t u (dosage n p geno)) []) 0 <= nth k (usl t n p u geno) 0)%Q.
+Proof. exact pop_brackets_any. Qed.
+Print Assumptions C10_brackets_any_phases.
+
+(** non-vacuity: a tetraploid phased population (2 individuals, 3 loci, 4 phases; phases 2 and 3 carry alleles the first two do not)
+    meets the hypotheses, its dosage [[2;1;4];[1;1;4]] is a tetraploid dosage matrix; and a tetraploid population fixed at every locus *)
+Example C10_ploidy_hyps_satisfiable :
+  (phases_ok 2 3 ex4_geno /\ alleles01 ex4_geno /\ (0 < 2)%nat /\ 0 < nphase ex4_geno /\ nphase ex4_geno * Z.of_nat 2 <= 2^53 /\
+   dos_ok 4 2 3 (dosage 2 3 ex4_geno) /\ dosage 2 3 ex4_geno = [[2; 1; 4]; [1; 1; 4]]) /\ model_ok 3 2 ex_u /\
+  (dos_ok 4 2 3 ex4_fixed /\ dfixed 3 ex4_fixed /\ (forall j, (j < 3)%nat -> Forall (fun d => d = 0 \/ d = 4) (col 0 j ex4_fixed))).
+Proof. split; [exact ex4_ok|]. split; [exact (proj1 (proj2 ex_wf)) | exact ex4_fixed_ok]. Qed.
 
 (** non-vacuity: a two-founder, three-locus, two-trait programme (two-way cross, then doubled haploids) meets every hypothesis,
     runs for two generations and strictly tightens the upper limit of both traits *)
